@@ -44,6 +44,8 @@ pub struct Sched {
     pub last_access: HashMap<usize, [Option<Access>; NT]>,
     pub races: Vec<String>,
     pub uaf: Vec<String>,
+    /// a thread read a liveness flag as `false` without thereby learning everything the dropped iterator had done before
+    pub dead_obs: Vec<String>,
     pub freed: usize,
     pub boxed: usize,
     pub buf_range: (usize, usize),
@@ -79,7 +81,7 @@ fn is_rel(o: Ordering) -> bool { matches!(o, Ordering::Release | Ordering::AcqRe
 impl Sched {
     pub fn new(seed: u64, script: Vec<usize>, stale_pct: usize) -> Sched {
         Sched { turn: usize::MAX, finished: [true; NT], active: [false; NT], rng: Rng::new(seed), script, script_pos: 0, decisions: vec![], locs: HashMap::new(),
-            vc: [[0; NT]; NT], events: vec![], last_access: HashMap::new(), races: vec![], uaf: vec![], freed: 0, boxed: 0, buf_range: (0, 0), stale_pct, steps: 0,
+            vc: [[0; NT]; NT], events: vec![], last_access: HashMap::new(), races: vec![], uaf: vec![], dead_obs: vec![], freed: 0, boxed: 0, buf_range: (0, 0), stale_pct, steps: 0,
             call_events: [vec![], vec![], vec![]], solo: None, solo_at: None, park_budget: 20000, hung: None, calib: vec![], pending: [vec![], vec![], vec![]], has_w: false, trace: vec![] }
     }
 
@@ -250,6 +252,10 @@ pub fn hook(phase: u8, ev: &Event) -> Option<usize> {
                 l.seen[t] = idx;
                 let m = l.msgs[idx].clone();
                 if is_acq(ev.ord) && m.release { let mut v = s.vc[t]; join(&mut v, &m.view); s.vc[t] = v; }
+                // C07: a thread that observes a peer as dead also observes everything that peer published before
+                if (name == "prodAlive" || name == "workAlive" || name == "consAlive") && m.val == 0 && m.by < NT && m.by != t && s.vc[t][m.by] < m.stamp {
+                    s.dead_obs.push(format!("T{t} read {name} = false (stored by T{} at its clock {} with ordering that {} release; loaded with {}) but only knows T{} up to {}: its next look at T{}'s index may still be stale", m.by, m.stamp, if m.release { "is" } else { "is not" }, ord_name(ev.ord), m.by, s.vc[t][m.by], m.by));
+                }
                 if idx != last { sub = Some(m.val); }
                 if name == s.lead_loc(t) { s.trace.push(format!("cld {} {} {}", ["P", "W", "C"][t], idx, m.val)); }
                 s.events.push(AtomicEv { t, kind: ev.kind, loc: name, ord: ord_name(ev.ord).into(), val: m.val, read_idx: Some(idx), last_idx: last });
